@@ -635,6 +635,402 @@ def chk_pair_presentations(curve, x, y):
     return None
 
 
+# ---- presentations of byte strings / integers / text, and call histories ---------------------------------------
+import random as _random
+BLOB_KINDS = [(0, "bytes", bytes), (1, "bytearray", bytearray), (2, "memoryview(bytes)", lambda b: memoryview(bytes(b))),
+              (3, "memoryview(bytearray)", lambda b: memoryview(bytearray(b)))]
+
+
+class _SubInt(int):
+    pass
+
+
+class _SubStr(str):
+    pass
+
+
+def present_int(kind, v):
+    return int(v) if kind == 0 else _SubInt(v) if kind == 1 else bool(v)
+
+
+def int_kinds_for(v):
+    return [0, 1] + ([2] if v in (0, 1) else [])
+
+
+def gen_for(p, a, b):
+    if (p, a % p, b % p) == (P1, A1 % P1, B1 % P1):
+        return K1
+    if (p, a % p, b % p) == (R1.p(), R1._a % R1.p(), R1._b % R1.p()):
+        return R1
+    return toy_generator(p, a, b)
+
+
+def ref_sec(blob, p, a, b, strict):
+    """independent reference SEC decoder (SEC1 2.3.4 as pycoin documents it): canonical string"""
+    blob = bytes(blob)
+    bc = (p.bit_length() + 7) >> 3
+    x = int.from_bytes(blob[1:1 + bc], "big")
+    if x >= p:
+        return "!E_ENCODING"
+    pre = blob[0] if blob else None
+    if len(blob) == 1 + 2 * bc:
+        if pre == 4 or (not strict and pre in (6, 7)):
+            y = int.from_bytes(blob[1 + bc:], "big")
+            if y >= p or (pre != 4 and (y & 1) != (pre & 1)):
+                return "!E_ENCODING"
+            return canon((x, y))
+        return "!E_ENCODING"
+    if len(blob) == 1 + bc and pre in (2, 3):
+        al = (x * x * x + a * x + b) % p
+        y0 = pow(al, (p + 1) // 4, p)
+        if y0 == 0:
+            return "!E_VALUE"
+        if y0 * y0 % p != al:
+            return "!E_NOPOINT"
+        y = y0 if (y0 & 1) == (pre & 1) else p - y0
+        return canon((x, y))
+    return "!E_ENCODING"
+
+
+def ref_from_sec(blob, p, a, b):
+    blob = bytes(blob)
+    r = ref_sec(blob, p, a, b, True)
+    if r.startswith("!"):
+        return r
+    x, y = [int(t[1:], 16) for t in r[1:-1].split(" ")]
+    if not _on(p, a, b, x, y) or not (0 <= x < p and 0 <= y < p):
+        return "!E_PUBPAIR"
+    return canon(((x, y), blob[:1] in (b"\x02", b"\x03")))
+
+
+def _h160(b):
+    h = _hl.new("ripemd160")
+    h.update(_hl.sha256(bytes(b)).digest())
+    return h.digest()
+
+
+def chk_sec_presentations(curve, blob_hex):
+    """a SEC blob is decoded alike as bytes / bytearray / memoryview (read-only, writable), and as the reference says"""
+    g = gen_for(*curve)
+    p, a, b = curve
+    blob = bytes.fromhex(blob_hex)
+    for kind, name, present in BLOB_KINDS:
+        for strict in (True, False):
+            got = call(_impl_sec, g, present(blob), strict)
+            want = ref_sec(blob, p, a, b, strict)
+            if got != want:
+                return {"kind": "sec-presentation", "presentation": name, "via": "sec_to_public_pair strict=%s" % strict, "got": got[:150], "want": want[:150]}
+        got = call(_impl_from_sec, g, present(blob))
+        want = ref_from_sec(blob, p, a, b)
+        if got != want:
+            return {"kind": "sec-presentation", "presentation": name, "via": "Key.from_sec", "got": got[:150], "want": want[:150]}
+        if bool(secm.is_sec_compressed(present(blob))) != (blob[:1] in (b"\x02", b"\x03")):
+            return {"kind": "sec-presentation", "presentation": name, "via": "is_sec_compressed"}
+        if g is K1:
+            net = _btc()
+            try:
+                k = net.keys.public(present(blob))
+                got = canon(((int(k.public_pair()[0]), int(k.public_pair()[1])), k.is_compressed()))
+            except Exception as ex:
+                k = None
+                got = "!" + exn_tag(ex)
+            if got != want:
+                return {"kind": "sec-presentation", "presentation": name, "via": "BTC.keys.public", "got": got[:150], "want": want[:150]}
+            if k is not None and (k.sec() != blob or k.hash160() != _h160(blob)):
+                return {"kind": "sec-presentation-key-differs", "presentation": name}
+    return None
+
+
+def chk_sec_history(curves, blob_hex, strict):
+    """module-level state: the same blob decoded for several curves in sequence (curves[0], curves[1], ..., curves[0] again):
+    every answer must be that curve's own (reference decoder), through sec_to_public_pair and Key.from_sec"""
+    blob = bytes.fromhex(blob_hex)
+    seq = [tuple(c) for c in curves] + [tuple(curves[0])]
+    for step, (p, a, b) in enumerate(seq):
+        g = gen_for(p, a, b)
+        got = call(_impl_sec, g, blob, strict)
+        want = ref_sec(blob, p, a, b, strict)
+        if got != want:
+            return {"kind": "sec-history-dependent", "step": step, "curve": [hex(p), a if a < 1000 else hex(a), b if b < 1000 else hex(b)],
+                    "via": "sec_to_public_pair", "got": got[:150], "want": want[:150]}
+        got = call(_impl_from_sec, g, blob)
+        want = ref_from_sec(blob, p, a, b)
+        if got != want:
+            return {"kind": "sec-history-dependent", "step": step, "curve": [hex(p), a if a < 1000 else hex(a), b if b < 1000 else hex(b)],
+                    "via": "Key.from_sec", "got": got[:150], "want": want[:150]}
+    return None
+
+
+def ref_der_int(v):
+    s = v.to_bytes(max(1, (v.bit_length() + 7) // 8), "big")
+    if s[0] & 0x80:
+        s = b"\x00" + s
+    return b"\x02" + ref_der_len(len(s)) + s
+
+
+def ref_der_len(n):
+    if n < 0x80:
+        return bytes([n])
+    b = n.to_bytes((n.bit_length() + 7) // 8, "big")
+    return bytes([0x80 | len(b)]) + b
+
+
+def ref_sigencode(r, s):
+    body = ref_der_int(r) + ref_der_int(s)
+    return b"\x30" + ref_der_len(len(body)) + body
+
+
+def chk_der_presentations(r, s):
+    """DER: the reference encoding of (r, s) decodes to (r, s) as bytes and as bytearray, strict and lax, in any order of
+    calls (strict, lax, strict); the encoder gives the reference bytes for int / int-subclass / bool arguments, also right
+    after an argument that collides with it under hash() (v and v + 2^61 - 1)"""
+    want_blob = ref_sigencode(r, s)
+    for kr in int_kinds_for(r):
+        for ks in int_kinds_for(s):
+            got = call(der.sigencode_der, present_int(kr, r), present_int(ks, s))
+            if got != canon(want_blob):
+                return {"kind": "der-int-presentation", "kinds": [kr, ks], "got": got[:150], "want": canon(want_blob)[:150]}
+    M = (1 << 61) - 1
+    for rr, ss in ((r + M, s), (r, s), (r, s + M), (r, s)):
+        got = call(der.sigencode_der, rr, ss)
+        if got != canon(ref_sigencode(rr, ss)):
+            return {"kind": "der-history-dependent", "r": hex(rr), "s": hex(ss), "got": got[:150]}
+    for kind, name, present in BLOB_KINDS[:2]:
+        for broken in (False, True, False):
+            got = call(der.sigdecode_der, present(want_blob), broken)
+            if got != canon((r, s)):
+                return {"kind": "der-presentation", "presentation": name, "broken": broken, "got": got[:150]}
+        got = call(der.sigdecode_der, present(want_blob + b"\x00"), False)
+        if got != "!E_DER":
+            return {"kind": "der-presentation-trailing", "presentation": name, "got": got[:150]}
+    return None
+
+
+def chk_int_presentations(sym, e):
+    """Key(secret_exponent=...) for int / int subclass / bool, and right after a hash()-colliding exponent"""
+    net = dict((s_, n_) for s_, n_, _ in nets())[sym]
+    n = net.generator.order()
+    M = (1 << 61) - 1
+    seq = [(0, e + M), (0, e)] + [(k, e) for k in int_kinds_for(e)] + [(0, e - M), (1, e)]
+    for kind, v in seq:
+        try:
+            k = net.keys.private(present_int(kind, v))
+            got = ("ok", int(k.secret_exponent()), k.sec())
+        except Exception as ex:
+            got = ("exc", type(ex).__name__)
+        if 1 <= v < n:
+            pt = v * K1
+            want = ("ok", v, bytes([2 + (int(pt[1]) & 1)]) + int(pt[0]).to_bytes(32, "big"))
+        else:
+            want = ("exc", "InvalidSecretExponentError")
+        if got != want:
+            return {"kind": "int-presentation", "presentation": ["int", "int subclass", "bool"][kind], "e": hex(v), "got": str(got)[:150], "want": str(want)[:150]}
+    return None
+
+
+_OBSERVERS = [("sec", (None, True, False)), ("hash160", (None, True, False)), ("address", (None, True, False)),
+              ("wif", (None, True, False)), ("fingerprint", (None, True, False)), ("sec_as_hex", (None, True, False)),
+              ("as_text", ()), ("public_pair", ()), ("is_compressed", ()), ("secret_exponent", ()), ("__repr__", ())]
+
+
+def _observe(k, name, flag):
+    f = getattr(k, name)
+    r = f() if flag == "-" else f(is_compressed=flag)
+    if name == "public_pair":
+        r = (int(r[0]), int(r[1]))
+    return r
+
+
+def chk_key_history(sym, se, private, seed):
+    """a Key object observed, mutated (compression flag assigned, memo fields cleared), observed again: every observer
+    equals the same observer of a FRESH key built from the current fields"""
+    net = dict(usable_nets())[sym]
+    r = _random.Random(seed)
+    flag = r.random() < 0.5
+    k = net.keys.private(se, is_compressed=flag)
+    if not private:
+        k = k.public_copy()
+    trace = []
+    for step in range(14):
+        op = r.choice(["obs", "obs", "obs", "flip", "clear"])
+        if op == "flip":
+            flag = not flag
+            k._is_compressed = flag
+            trace.append("flip")
+            continue
+        if op == "clear":
+            k._hash160_compressed = None
+            k._hash160_uncompressed = None
+            trace.append("clear")
+            continue
+        name, flags = r.choice(_OBSERVERS)
+        fl = r.choice(flags) if flags else "-"
+        fresh = net.keys.private(se, is_compressed=flag)
+        if not private:
+            fresh = net.keys.public((int(fresh.public_pair()[0]), int(fresh.public_pair()[1])), is_compressed=flag)
+        trace.append("%s(%s)" % (name, fl))
+        got = _outcome(_observe, k, name, fl)
+        want = _outcome(_observe, fresh, name, fl)
+        if got != want:
+            return {"kind": "key-history-dependent", "trace": trace, "got": str(got)[:150], "want": str(want)[:150]}
+    return None
+
+
+def ref_wif(payload, prefix, n):
+    if payload is None or not payload.startswith(prefix):
+        return None
+    body = payload[len(prefix):]
+    if len(body) == 33 and body[-1] == 1:
+        c = True
+    elif len(body) == 32:
+        c = False
+    else:
+        return None
+    e = int.from_bytes(body[:32], "big")
+    return (e, c) if 1 <= e < n else None
+
+
+def _wif_forms(text):
+    from pycoin.networks.parseable_str import parseable_str
+    return {"str": text, "str-subclass": _SubStr(text), "parseable_str": parseable_str(text)}
+
+
+def chk_wif_history(syms, payload_hex, form):
+    """one WIF text (plain str, str subclass, or ONE parseable_str object carrying its parse cache) handed to several
+    networks in sequence (first one again at the end): each answer is that network's own (reference from the payload)"""
+    payload = bytes.fromhex(payload_hex)
+    obj = _wif_forms(b58check(payload))[form]
+    nd = dict(usable_nets())
+    for step, sym in enumerate(list(syms) + [syms[0]]):
+        net = nd[sym]
+        try:
+            k = net.parse.wif(obj)
+            got = None if k is None else (k.secret_exponent(), k.is_compressed())
+        except Exception as ex:
+            return {"kind": "wif-parse-raises", "net": sym, "step": step, "detail": "%s: %s" % (type(ex).__name__, ex)}
+        want = ref_wif(payload, net.parse._wif_prefix, net.generator.order())
+        if got != want:
+            return {"kind": "wif-history-dependent", "net": sym, "step": step, "form": form, "got": str(got)[:120], "want": str(want)[:120]}
+    return None
+
+
+_LOOKALIKE = {"K": "K", "s": "ſ", "k": "K".lower() + "̇"}
+
+
+def wif_variants(w):
+    out = []
+    for i, ch in enumerate(w):
+        if ch.isascii() and ch.isalnum():
+            out.append(w[:i] + chr(ord(ch) + 0xFEE0) + w[i + 1:])       # fullwidth form: NFKC-normalises to ch
+            break
+    for ch, rep in _LOOKALIKE.items():
+        if ch in w:
+            out.append(w.replace(ch, rep, 1))                               # case-folds / lower()s to ch
+    out += [w + "́", "​" + w, w + " ", w.lower(), w.upper(), w.swapcase(), " " + w, w + "\n", w + "\x00",
+            w[:-1], w + w[-1], w[::-1], "", w.encode("ascii")]
+    return out
+
+
+def chk_wif_lookalike(sym, se, c, idx):
+    """texts that merely LOOK like (normalise / case-fold to) a valid WIF are not WIFs: None, no exception"""
+    net = dict(usable_nets())[sym]
+    w = net.keys.private(se, is_compressed=c).wif()
+    vs = wif_variants(w)
+    v = vs[idx % len(vs)]
+    if v == w:
+        return None
+    try:
+        k = net.parse.wif(v)
+    except Exception as ex:
+        return {"kind": "wif-lookalike-raises", "variant": repr(v)[:80], "detail": "%s: %s" % (type(ex).__name__, ex)}
+    if k is not None:
+        return {"kind": "wif-lookalike-accepted", "variant": repr(v)[:80]}
+    return None
+
+
+def history_curve_sets(rng):
+    """curve sets sharing a byte count, so that one blob is a candidate key for each of them"""
+    p16 = _prime_below(16)
+    p64 = _prime_below(64)
+    return [[(251, 0, 7), (239, 3, 5)], [(239, 3, 5), (251, 0, 7)], [(p16, 0, 7), (p16, 0, 3)], [(p16, 0, 3), (p16, 0, 7)],
+            [(p64, 0, 7), (p64, 0, 3)], [(p64, 0, 3), (p64, 0, 7)],
+            [(P1, A1, B1), (R1.p(), R1._a, R1._b)], [(R1.p(), R1._a, R1._b), (P1, A1, B1)]]
+
+
+def history_blobs(cs, rng, n):
+    """compressed and uncompressed keys of the first and of the second curve, plus a malformed one"""
+    out = []
+    for i in range(n):
+        p, a, b = cs[i % len(cs)]
+        g = gen_for(p, a, b)
+        bc = bc_of(g)
+        x, y = point_on(g, rng)
+        out.append(bytes([2 + (y & 1)]) + enc_w(x, bc))
+        out.append(bytes([3 - (y & 1)]) + enc_w(x, bc))
+        if i % 3 == 0:
+            out.append(b"\x04" + enc_w(x, bc) + enc_w(y, bc))
+            out.append(bytes([5]) + enc_w(x, bc))
+    return out
+
+
+def presentation_and_history_cases(rng, quick):
+    # SEC blobs in every bytes-like presentation: toy field exhaustive-ish, secp256k1 sampled (full-size roots rationed)
+    gt = toy_generator(251, 0, 7)
+    ga = gen_args(gt)
+    blobs = [bytes([pre, x]) for pre in range(8) for x in range(0, 256, 1 if not quick else 5)] + \
+        [bytes([pre, x, (x * 7 + pre) % 256]) for pre in (4, 6, 7, 2) for x in range(0, 256, 3)] + [b"", b"\x02", b"\x04"]
+    for bl in blobs:
+        for kind, _, present in BLOB_KINDS[1:]:
+            st = rng.random() < 0.7
+            yield Case("sec_to_public_pair_arg %s %s %s %s" % (ga, arg(kind), arg(bl), arg(st)),
+                       (lambda bl=bl, present=present, st=st: call(_impl_sec, gt, present(bl), st)))
+            yield Case("key_from_sec_arg %s %s %s" % (ga, arg(kind), arg(bl)),
+                       (lambda bl=bl, present=present: call(_impl_from_sec, gt, present(bl))))
+            yield Case("is_sec_compressed_arg %s %s" % (arg(kind), arg(bl)),
+                       (lambda bl=bl, present=present: call(lambda v: bool(secm.is_sec_compressed(v)), present(bl))))
+    ga = gen_args(K1)
+    kb = _sec_blobs_for(K1, rng, 150 if quick else 3000, 4 if quick else 80, 3 if quick else 60)
+    for bl in kb:
+        kind, _, present = BLOB_KINDS[1 + rng.randrange(3)]
+        if rng.random() < 0.5:
+            st = rng.random() < 0.7
+            yield Case("sec_to_public_pair_arg %s %s %s %s" % (ga, arg(kind), arg(bl), arg(st)),
+                       (lambda bl=bl, present=present, st=st: call(_impl_sec, K1, present(bl), st)))
+        else:
+            yield Case("key_from_sec_arg %s %s %s" % (ga, arg(kind), arg(bl)),
+                       (lambda bl=bl, present=present: call(_impl_from_sec, K1, present(bl))))
+    # DER blobs as bytearray / memoryview
+    for bl in _der_blobs(rng, "quick")[-(400 if quick else 1500):]:
+        for kind, _, present in BLOB_KINDS[1:]:
+            br = rng.random() < 0.5
+            yield Case("sigdecode_der_arg %s %s %s" % (arg(kind), arg(bl), arg(br)),
+                       (lambda bl=bl, present=present, br=br: call(der.sigdecode_der, present(bl), br)))
+    # integers as int subclass / bool
+    for e in [0, 1, 2, N1 - 1, N1, (1 << 256) - 1, -1] + [rng.randrange(1, N1) for _ in range(10 if quick else 200)]:
+        for kind in int_kinds_for(e)[1:]:
+            yield Case("key_private_arg %s %s %s" % (arg(N1), arg(kind), arg(e)),
+                       (lambda e=e, kind=kind: call(lambda v: int(_impl_key_private(K1, v)), present_int(kind, e))))
+    for r, s_ in [(0, 1), (1, 0), (1, 1), (0x80, 1), (N1 - 1, N1 // 2)] + [(rng.getrandbits(256), rng.getrandbits(255)) for _ in range(20 if quick else 400)]:
+        for kr in int_kinds_for(r)[1:]:
+            for ks in int_kinds_for(s_):
+                yield Case("sigencode_der_arg %s %s %s %s" % (arg(kr), arg(r), arg(ks), arg(s_)),
+                           (lambda r=r, s_=s_, kr=kr, ks=ks: call(der.sigencode_der, present_int(kr, r), present_int(ks, s_))))
+                yield Case("public_pair_to_sec_arg %s %s %s %s T" % (arg(kr), arg(r), arg(ks), arg(s_)),
+                           (lambda r=r, s_=s_, kr=kr, ks=ks: call(secm.public_pair_to_sec, (present_int(kr, r), present_int(ks, s_)), True)))
+    # histories: one blob, several curves of the same byte count, in sequence (the model answers each call on its own)
+    for cs in history_curve_sets(rng):
+        big = cs[0][0].bit_length() > 200
+        for bl in history_blobs(cs, rng, (1 if big else 6) if quick else (12 if big else 60)):
+            if big and len(bl) == 33 and bl[0] in (2, 3) and quick and rng.random() < 0.5:
+                continue
+            st = rng.random() < 0.7
+            for (p, a, b) in list(cs) + [cs[0]]:
+                g = gen_for(p, a, b)
+                yield Case("sec_to_public_pair %s %s %s" % (gen_args(g), arg(bl), arg(st)), (lambda g=g, bl=bl, st=st: call(_impl_sec, g, bl, st)), meta="history")
+                if not big:
+                    yield Case("key_from_sec %s %s" % (gen_args(g), arg(bl)), (lambda g=g, bl=bl: call(_impl_from_sec, g, bl)), meta="history")
+
+
 # ---- correspondence ------------------------------------------------------------------------------------
 def model_cases(rng, tier):
     quick = tier == "quick"
@@ -784,6 +1180,9 @@ def model_cases(rng, tier):
     for x, y in fixed:
         yield Case("key_public %s %s %s" % (ga, arg(x), arg(y)), (lambda x=x, y=y: call(_impl_key_public, K1, x, y)))
         yield Case("key_public %s %s %s" % (ga, arg(x), arg(y)), (lambda x=x, y=y: call(_impl_keys_public, x, y)))
+    # byte-string presentations (bytearray, memoryviews) and histories (one blob, several curves, both orders)
+    for c in presentation_and_history_cases(rng, quick):
+        yield c
     # every presentation of a pair (tuple / list / Point of its own, of another or of a fitted curve) x every category
     for c in presentation_cases(K1, rng, 12 if quick else 300, through_network=True):
         yield c
@@ -1034,6 +1433,41 @@ def prop_cases(rng, tier):
         for cat, x, y in pair_categories(g, rng, n):
             yield PropCase("pair_presentations", {"curve": curve, "x": None if x is None else hex(x), "y": None if y is None else hex(y), "category": cat},
                            (lambda curve=curve, x=x, y=y: chk_pair_presentations(curve, x, y)))
+    # presentations and histories (independent references: ref_sec / ref_from_sec / ref_sigencode / ref_wif / fresh objects)
+    for cs in history_curve_sets(rng):
+        for bl in history_blobs(cs, rng, 6 if quick else 120):
+            for st in (True, False):
+                yield PropCase("sec_history", {"curves": [[hex(v) for v in c] for c in cs], "sec": bl.hex(), "strict": st},
+                               (lambda cs=cs, bl=bl, st=st: chk_sec_history(cs, bl.hex(), st)))
+    k1c = (P1, A1, B1)
+    for bl in _sec_blobs_for(K1, rng, 120 if quick else 3000, 8 if quick else 200, 10 ** 9):
+        yield PropCase("sec_presentations", {"curve": [hex(v) for v in k1c], "sec": bl.hex()}, (lambda bl=bl: chk_sec_presentations(k1c, bl.hex())))
+    for bl in list(_small_strings(1)) + [bytes([pre, x]) for pre in (2, 3, 4, 5) for x in range(0, 256, 3 if quick else 1)]:
+        yield PropCase("sec_presentations", {"curve": ["0xfb", "0x0", "0x7"], "sec": bl.hex()}, (lambda bl=bl: chk_sec_presentations((251, 0, 7), bl.hex())))
+    for _ in range(150 if quick else 4000):
+        r = rng.getrandbits(rng.choice([1, 1, 7, 8, 255, 256, 257, 1016, 1100]))
+        s_ = rng.getrandbits(rng.choice([1, 1, 7, 8, 255, 256, 600]))
+        yield PropCase("der_presentations", {"r": hex(r), "s": hex(s_)}, (lambda r=r, s_=s_: chk_der_presentations(r, s_)))
+    for sym in syms_all[:: (6 if quick else 1)]:
+        for e in [0, 1, N1 - 1, N1, (1 << 61) - 1, 1 << 61] + [rng.randrange(1, N1) for _ in range(2 if quick else 20)]:
+            yield PropCase("int_presentations", {"net": sym, "e": hex(e)}, (lambda sym=sym, e=e: chk_int_presentations(sym, e)))
+    for sym in syms[:: (5 if quick else 1)]:
+        for i in range(6 if quick else 60):
+            se, private, seed = rng.randrange(1, N1), rng.random() < 0.6, rng.getrandbits(32)
+            yield PropCase("key_history", {"net": sym, "se": hex(se), "private": private, "seed": seed},
+                           (lambda sym=sym, se=se, private=private, seed=seed: chk_key_history(sym, se, private, seed)))
+    for _ in range(60 if quick else 1500):
+        trio = [rng.choice(syms) for _ in range(rng.choice([2, 3]))]
+        pre = dict(usable_nets())[rng.choice(trio)].parse._wif_prefix
+        d = rng.choice(_wif_payloads(pre, rng, 3))
+        form = rng.choice(["str", "str-subclass", "parseable_str"])
+        yield PropCase("wif_history", {"nets": trio, "payload": d.hex(), "form": form},
+                       (lambda trio=trio, d=d, form=form: chk_wif_history(trio, d.hex(), form)))
+    for sym in syms[:: (7 if quick else 1)]:
+        for idx in range(20):
+            se, c = rng.randrange(1, N1), rng.random() < 0.5
+            yield PropCase("wif_lookalike", {"net": sym, "se": hex(se), "c": c, "idx": idx},
+                           (lambda sym=sym, se=se, c=c, idx=idx: chk_wif_lookalike(sym, se, c, idx)))
     # strictness on the implementation: every blob that Key.from_sec accepts is canonical
     for bl in _sec_blobs_for(K1, rng, 2500 if quick else 50000, 60 if quick else 1500, 10 ** 9):
         yield PropCase("sec_strict", {"curve": "secp256k1", "sec": bl.hex()}, (lambda bl=bl: chk_sec_strict(K1, bl)))
@@ -1070,6 +1504,20 @@ def replay_input(check, inp):
         return chk_key_range(inp["net"], _int(inp["e"]))
     if check == "pubpair":
         return chk_pubpair(_int(inp["x"]), _int(inp["y"]))
+    if check == "sec_presentations":
+        return chk_sec_presentations(tuple(_int(v) for v in inp["curve"]), inp["sec"])
+    if check == "sec_history":
+        return chk_sec_history([tuple(_int(v) for v in c) for c in inp["curves"]], inp["sec"], inp["strict"])
+    if check == "der_presentations":
+        return chk_der_presentations(_int(inp["r"]), _int(inp["s"]))
+    if check == "int_presentations":
+        return chk_int_presentations(inp["net"], _int(inp["e"]))
+    if check == "key_history":
+        return chk_key_history(inp["net"], _int(inp["se"]), inp["private"], inp["seed"])
+    if check == "wif_history":
+        return chk_wif_history(inp["nets"], inp["payload"], inp["form"])
+    if check == "wif_lookalike":
+        return chk_wif_lookalike(inp["net"], _int(inp["se"]), inp["c"], inp["idx"])
     if check == "pair_presentations":
         return chk_pair_presentations(inp["curve"], None if inp["x"] is None else _int(inp["x"]), None if inp["y"] is None else _int(inp["y"]))
     if check == "sec_strict":
@@ -1123,9 +1571,26 @@ def search(rng, tier, disagreements, known_ids):
                             cands.append(PropCase("der_roundtrip", {"r": hex(r), "s": hex(s)}, (lambda r=r, s=s: chk_der_roundtrip(r, s))))
                     except Exception:
                         pass
-            elif fn in ("sec_to_public_pair", "key_from_sec"):
-                p = _tok_int(toks[1])
-                b = bytes.fromhex(toks[4][1:])
+            elif fn in ("sec_to_public_pair", "key_from_sec", "sec_to_public_pair_arg", "key_from_sec_arg", "is_sec_compressed_arg"):
+                if fn == "is_sec_compressed_arg":
+                    p, a_, b_ = P1, A1, B1
+                    b = bytes.fromhex(toks[2][1:])
+                else:
+                    p, a_, b_ = _tok_int(toks[1]), _tok_int(toks[2]), _tok_int(toks[3])
+                    b = bytes.fromhex(toks[5 if fn.endswith("_arg") else 4][1:])
+                # presentations of this very blob, and its history under every curve set that contains this curve
+                cv = (p, a_, b_)
+                try:
+                    gen_for(*cv)
+                    cands.append(PropCase("sec_presentations", {"curve": [hex(v) for v in cv], "sec": b.hex()},
+                                          (lambda cv=cv, b=b: chk_sec_presentations(cv, b.hex()))))
+                    for cs in history_curve_sets(rng):
+                        if any(tuple(c) == (cv[0], cv[1] % cv[0], cv[2] % cv[0]) or tuple(c) == cv for c in cs):
+                            for st in (True, False):
+                                cands.append(PropCase("sec_history", {"curves": [[hex(v) for v in c] for c in cs], "sec": b.hex(), "strict": st},
+                                                      (lambda cs=cs, b=b, st=st: chk_sec_history(cs, b.hex(), st))))
+                except Exception:
+                    pass
                 g, nm = (K1, "secp256k1") if p == P1 else (R1, "secp256r1") if p == R1.p() else (gt, "toy251") if p == 251 else (None, None)
                 if g is not None:
                     cands.append(PropCase("sec_strict", {"curve": nm, "sec": b.hex()}, (lambda g=g, b=b: chk_sec_strict(g, b))))
@@ -1152,6 +1617,22 @@ def search(rng, tier, disagreements, known_ids):
                     for cat, x2, y2 in pair_categories(K1, rng, 3):
                         cands.append(PropCase("pair_presentations", {"curve": "secp256k1", "x": None if x2 is None else hex(x2), "y": None if y2 is None else hex(y2)},
                                               (lambda x2=x2, y2=y2: chk_pair_presentations("secp256k1", x2, y2))))
+            elif fn == "sigdecode_der_arg":
+                bb = bytes.fromhex(toks[2][1:])
+                try:
+                    r_, s_ = der.sigdecode_der(bytes(bb))
+                    if r_ >= 0 and s_ >= 0:
+                        cands.append(PropCase("der_presentations", {"r": hex(r_), "s": hex(s_)}, (lambda r_=r_, s_=s_: chk_der_presentations(r_, s_))))
+                except Exception:
+                    pass
+                cands.append(PropCase("der_presentations", {"r": "0x5", "s": "0x80"}, (lambda: chk_der_presentations(5, 0x80))))
+            elif fn in ("sigencode_der_arg", "public_pair_to_sec_arg"):
+                r_, s_ = _tok_int(toks[2]), _tok_int(toks[4])
+                if r_ >= 0 and s_ >= 0:
+                    cands.append(PropCase("der_presentations", {"r": hex(r_), "s": hex(s_)}, (lambda r_=r_, s_=s_: chk_der_presentations(r_, s_))))
+            elif fn == "key_private_arg":
+                e = _tok_int(toks[3])
+                cands.append(PropCase("int_presentations", {"net": "BTC", "e": hex(e)}, (lambda e=e: chk_int_presentations("BTC", e))))
             elif fn == "key_private":
                 e = _tok_int(toks[2])
                 for ee in (e, e - 1, e + 1, 0, N1, (1 << 256) - 1):
